@@ -4,9 +4,13 @@ CONSTANTS
   MaxFalse = 1
   NestSet <- MCNestNo
   ViaAll = FALSE
-  DRSet <- MCDRQuick
-  ESet <- MCEOne
+  DRSeq <- MCDR
+  ESeq <- MCE
+  FullUnrelated = FALSE
+  PickByHash = TRUE
   Seed = 1
-  SampleMod = 1
-  SampleKeep = 1
-INVARIANTS JudgementAgrees OnlyApplicableMatter TruthBookkeeping BodyIffPre PhaseOrder Monotone EventsComplete EmitRow
+  SampleMod = 1000
+  Keep0 = 1000
+  Keep1 = 1000
+  Keep2 = 1000
+INVARIANTS SaneAndEmit
